@@ -1,7 +1,9 @@
 """C06 — logs never leak between concurrently running tests or threads (models M3, M4, M14).
 
 Streams
-  sess         (reused from props/_session.py) Session API calls issued by real threads in lock-step vs. M3.
+  sess         (reused from props/_session.py) Session API calls issued by real threads in lock-step vs. M3; oracle: every
+               attachment a fired event references exists on disk with the written content at that moment, names distinct
+               (blocks left by an exception — `attachAbort` — must not be referenced at all).
   C06.run      k concurrently running tests x 0..3 lcc.Threads each through the REAL runner.run_suites with
                nb_threads >= 2; self-describing payloads; a turn controller releases the logging calls of the live
                emitters in seeded interleavings (several at once when the line scheduler is on); the final report
@@ -44,13 +46,18 @@ ASSUMPTIONS = [
     "user code logs through the public API (lcc.log_*, check_that/log_check, log_url, save_attachment_*, set_step, lcc.Thread)",
     "a result (test, suite setup/teardown, session setup/teardown) is started once per run (no second TestStart for a path)",
 ]
-RULE = ("C06.run: a case counts if >= 2 emitters (tests or lcc.Threads) were live at once and their log calls interleave in "
+RULE = ("attachment operations include the ones that FAIL before (or after) the file is written — a raising `with prepare_attachment` / "
+        "`prepare_image_attachment` body, handled by the test or not, nested in a block that completes, `save_attachment_file` / "
+        "`save_image_file` on a missing source — in all three streams.  "
+        "C06.run: a case counts if >= 2 emitters (tests or lcc.Threads) were live at once and their log calls interleave in "
         "the fired sequence (pattern A..B..A); C06.attach: >= 2 threads and the recorded line trace switches threads inside "
         "prepare_attachment; sess: >= 2 thread ids or a step change; distinct = hash of the case incl. schedule seed")
 EXPLANATION = ("Theorems over all interleavings (LccModel.C06.*): cursor locality and event ownership (M3 invariant), every log "
                "lands in the emitting thread's own step at the event's location and nothing else changes (M3 composed with the "
                "writer M4), attachment numbers strictly increasing under the lock for any number of threads (M14) with the "
-               "lock-free refutation, file written before the event is fired. Tied to the code by three differential streams "
+               "lock-free refutation, file written before the event is fired; the attachment events of the stream are exactly the "
+               "blocks that were left normally (a block left by an exception fires nothing; every fired attachment was prepared by an "
+               "attachBegin of the same thread; block numbers pairwise distinct). Tied to the code by three differential streams "
                "against real threads and the real runner, incl. line-level pre-emption inside session.py / writer.py.")
 
 _HARD_TIMEOUT = 90.0
